@@ -46,8 +46,8 @@
 (* asks for one, its "imputable" does not; dense and scalar code differ):  *)
 (* Alts lists the admissible alternatives.                                 *)
 (* Outside the domain (InDomain): a non-zero shift for sparse contexts     *)
-(* (documented CobaException); NaN in Impute data; lists of statistics     *)
-(* together with the indicator.                                            *)
+(* (documented CobaException); NaN in Impute data.                         *)
+(*                                                                         *)
 (*                                                                         *)
 (* Generator / oracle use: every initial state is one case, its successor  *)
 (* prints the input contexts and the expected contexts (Emit).  The other  *)
@@ -113,7 +113,7 @@ QMaxAbs(W, sh) == LET S == {QAbs(QAdd(QI(W[i]), sh)) : i \in DOMAIN W}
 Min2(a, b)     == IF a < b THEN a ELSE b
 Win(col, using) == IF using = 0 THEN col ELSE SubSeq(col, 1, Min2(using, Len(col)))
 Zero(c)        == IF c.t = "abs" THEN Num(0) ELSE c            \* an absent sparse key is the value 0
-Missing(c)     == c.t \in {"none", "nan"}
+Missing(c)     == c.t \in {"none", "nan", "free"}       \* "free": left undetermined by an earlier pass (possibly still missing)
 (* non-missing window values *)
 Present(col, using) == LET w == Win(col, using)
                        IN  SelectSeq([i \in DOMAIN w |-> Zero(w[i])], LAMBDA c : ~Missing(c))
@@ -176,8 +176,10 @@ ImputeCol(col, stat, using) ==
   ELSE col                                                  \* a non-numeric feature under mean / median is left untouched
 (* the feature gets a missingness indicator *)
 Flagged(col, stat, using) == Imputable(col, stat, using) /\ HasNone(Win(col, using))
-MayBeFlagged(col, stat, using) == ~Imputable(col, stat, using) /\ HasNone(Win(col, using))
-FlagCol(col) == [i \in DOMAIN col |-> IF col[i].t = "none" THEN Num(1) ELSE Num(0)]
+HasOpen(col) == \E i \in DOMAIN col : col[i].t \in {"none", "free"}
+HasFree(col) == \E i \in DOMAIN col : col[i].t = "free"
+MayBeFlagged(col, stat, using) == (~Imputable(col, stat, using) /\ HasOpen(Win(col, using))) \/ HasFree(Win(col, using))
+FlagCol(col) == [i \in DOMAIN col |-> IF col[i].t = "none" THEN Num(1) ELSE IF col[i].t = "free" THEN Free ELSE Num(0)]
 (* a list of statistics: one pass per statistic, in order (core.py 867-871) *)
 RECURSIVE ImputeSeq(_,_,_)
 ImputeSeq(col, stats, using) == IF stats = <<>> THEN col
@@ -195,9 +197,10 @@ Layout(shape, cols, flags, i) ==
     [] shape = "sparse" -> [k |-> "sparse",
                             v |-> LET js == SeqOfSet({j \in DOMAIN cols : cols[j][i].t # "abs"})
                                   IN  [x \in DOMAIN js |-> <<KeyOf(js[x]), cols[js[x]][i]>>]
-                                      \o [f \in DOMAIN flags |-> <<FlagKey(flags[f][1]), flags[f][2][i]>>]]
-    [] shape = "scalar" -> IF flags = <<>> THEN [k |-> "scalar", v |-> cols[1][i]]
-                           ELSE [k |-> "dense", v |-> <<cols[1][i], flags[1][2][i]>>]   \* [value, flag] (filters.py 387-391)
+                                      \o LET fs == SeqOfSet({f \in DOMAIN flags : \A g \in DOMAIN flags : flags[g][1] = flags[f][1] => g <= f})
+                                         IN  [x \in DOMAIN fs |-> <<FlagKey(flags[fs[x]][1]), flags[fs[x]][2][i]>>]]   \* a later pass overwrites the key
+    [] shape = "scalar" -> IF flags = <<>> THEN [k |-> "scalar", v |-> <<cols[1][i]>>]         \* [value, flag, ..] (filters.py 387-391)
+                           ELSE [k |-> "dense", v |-> <<cols[1][i]>> \o [f \in DOMAIN flags |-> flags[f][2][i]]]
 Contexts(shape, cols, flags) == [i \in DOMAIN cols[1] |-> Layout(shape, cols, flags, i)]
 
 -----------------------------------------------------------------------------
@@ -237,7 +240,6 @@ ImputeCase(shape, cols, st, ind, u)  == [f |-> "impute", shape |-> shape, cols |
 
 InDomain(x) ==
   /\ (x.f = "scale") => ((x.shape = "sparse") => (x.sh = Const(0, 1)))
-  /\ (x.f = "impute") => (x.ind => Len(x.stats) = 1)
 
 TwoCols(A, n) == UNION {{<<a, b>>, <<b, a>>} : a \in ColsOf(A, n), b \in Comp(n)}
 
@@ -272,13 +274,35 @@ Spec == Init /\ [][Next]_vars
 (* the oracle *)
 OutCols(x) == IF x.f = "scale" THEN [j \in DOMAIN x.cols |-> ScaleCol(x.cols[j], x.sh, x.sc, x.using)]
               ELSE [j \in DOMAIN x.cols |-> ImputeSeq(x.cols[j], x.stats, x.using)]
-FlagsFor(x, J) == LET js == SeqOfSet(J) IN [f \in DOMAIN js |-> <<js[f], FlagCol(x.cols[js[f]])>>]
-MustFlag(x) == IF x.f = "impute" /\ x.ind THEN {j \in DOMAIN x.cols : Flagged(x.cols[j], x.stats[1], x.using)} ELSE {}
-MayFlag(x)  == IF x.f = "impute" /\ x.ind THEN {j \in DOMAIN x.cols : MayBeFlagged(x.cols[j], x.stats[1], x.using)} ELSE {}
-OutFlags(x) == FlagsFor(x, MustFlag(x))
+(* Impute pass by pass (core.py 867-871: one Impute(stat, indicator, using) per statistic, each reading the contexts the   *)
+(* previous one produced).  A pass state is [cols, flags]: the feature columns and the indicator features added so far,    *)
+(* <<feature, column>> in the order they were added.  Indicator features are complete 0/1 columns: later passes never      *)
+(* change or flag them.  Within a pass the new indicators follow in feature order (filters.py 343, 354); a feature that has *)
+(* a None (or a cell an earlier pass left undetermined) in the window but is not imputable by this pass may or may not get  *)
+(* one (S): so a pass has a SET of admissible outcomes.                                                                    *)
+FlagsFor(cols, J) == LET js == SeqOfSet(J) IN [f \in DOMAIN js |-> <<js[f], FlagCol(cols[js[f]])>>]
+Pass(st, stat, ind, using) ==
+  LET out  == [j \in DOMAIN st.cols |-> ImputeCol(st.cols[j], stat, using)]
+      must == {j \in DOMAIN st.cols : Flagged(st.cols[j], stat, using)}
+      may  == {j \in DOMAIN st.cols : MayBeFlagged(st.cols[j], stat, using)}
+  IN  IF ~ind THEN {[cols |-> out, flags |-> st.flags, plain |-> st.plain]}
+      ELSE {[cols |-> out, flags |-> st.flags \o FlagsFor(st.cols, must \cup S), plain |-> st.plain /\ S = {}] : S \in SUBSET may}
+RECURSIVE Passes(_,_,_,_)
+Passes(S, stats, ind, using) == IF stats = <<>> THEN S
+                                ELSE Passes(UNION {Pass(st, Head(stats), ind, using) : st \in S}, Tail(stats), ind, using)
+Outcomes(x) == Passes({[cols |-> x.cols, flags |-> <<>>, plain |-> TRUE]}, x.stats, x.ind, x.using)
+(* the outcome without any optional indicator *)
+Plain(x)    == CHOOSE st \in Outcomes(x) : st.plain
+OutFlags(x) == IF x.f = "impute" THEN Plain(x).flags ELSE <<>>
 Expected(x) == Contexts(x.shape, OutCols(x), OutFlags(x))
-(* equally admissible: indicators also for some of the features that have a None in the window but are not imputable *)
-Alts(x)     == {Contexts(x.shape, OutCols(x), FlagsFor(x, MustFlag(x) \cup S)) : S \in (SUBSET MayFlag(x)) \ {{}}}
+(* equally admissible: the outcomes with optional indicators; and, for several indicators, their order by feature instead   *)
+(* of by pass (the property fixes neither; a single pass documents feature order)                                          *)
+ByFeature(flags) == LET n == Len(flags)
+                        rank(f) == Cardinality({g \in 1..n : flags[g][1] < flags[f][1] \/ (flags[g][1] = flags[f][1] /\ g <= f)})
+                    IN  [r \in 1..n |-> flags[CHOOSE f \in 1..n : rank(f) = r]]
+Alts(x)     == IF x.f # "impute" THEN {}
+               ELSE ({Contexts(x.shape, st.cols, st.flags) : st \in Outcomes(x)}
+                     \cup {Contexts(x.shape, st.cols, ByFeature(st.flags)) : st \in Outcomes(x)}) \ {Expected(x)}
 (* History independence.  A filter OBJECT is applied to many sequences: Environments.filter (core.py) hands one Scale /     *)
 (* Impute object to every environment, and every environment is read once per learner.  The property quantifies over "all  *)
 (* interaction sequences": what an object returns for the k-th sequence it is given is the expectation for that sequence    *)
@@ -312,6 +336,7 @@ ImputeComplete ==
     \A j \in DOMAIN c.cols :
       /\ Imputable(c.cols[j], c.stats[1], c.using) => ~HasNone(OutCols(c)[j])
       /\ ImputeSeq(OutCols(c)[j], c.stats, c.using) = OutCols(c)[j]
+      /\ \A st \in Outcomes(c) : st.cols[j] = OutCols(c)[j]          \* indicators never change what is imputed
       /\ (Len(c.stats) = 2 /\ c.stats[1] = c.stats[2]) => OutCols(c)[j] = ImputeCol(c.cols[j], c.stats[1], c.using)
 (* a window longer than the data is the whole data *)
 LongWindow ==
